@@ -305,11 +305,12 @@ func c06Levels(tier string) []core.Level {
 				}
 			}
 		}},
-		{Name: fmt.Sprintf("nested loops to depth %d over lengths 0..3 printing index and loop.parent chains", maxNest), Gen: func(emit func(core.Case)) {
+		{Name: fmt.Sprintf("nested loops to depth %d over lengths 0..3 printing index and loop.parent chains, the innermost body inline and rendered through an include", maxNest), Gen: func(emit func(core.Case)) {
 			for depth := 2; depth <= maxNest; depth++ {
 				lens := make([]int, depth)
 				for {
 					emit(core.Case{Fam: "nest", N: append([]int{}, lens...)})
+					emit(core.Case{Fam: "nestinc", N: append([]int{}, lens...)})
 					j := depth - 1
 					for j >= 0 {
 						lens[j]++
@@ -353,10 +354,13 @@ func c06Levels(tier string) []core.Level {
 				}
 			}
 		}},
-		{Name: "non-iterable values (number, string, bool, struct, pointer to struct) are an error", Gen: func(emit func(core.Case)) {
+		{Name: "non-iterable values (number, string, bool, struct, pointer to struct) are an error, at top level and inside 7 enclosing constructs (list loop, map loop, branch, else branch of an empty loop, two loops, branch in a loop, loop with inline condition)", Gen: func(emit func(core.Case)) {
 			for i := 0; i < 6; i++ {
 				for e := 0; e < 2; e++ {
 					emit(core.Case{Fam: "noniter", N: []int{i, e}})
+					for w := 1; w < 8; w++ {
+						emit(core.Case{Fam: "noniter", N: []int{i, e, w}})
+					}
 				}
 			}
 		}},
@@ -415,7 +419,7 @@ func c06Run(c core.Case) core.Result {
 		src += "{% endfor %}>"
 		want += ">"
 		return c06Compare(src, map[string]stick.Value{"seq": seq}, want, true)
-	case "nest":
+	case "nest", "nestinc":
 		lens := c.N
 		// loop d iterates over [1..lens[d]]; the innermost body prints the index chain through loop.parent
 		depth := len(lens)
@@ -432,7 +436,12 @@ func c06Run(c core.Case) core.Result {
 			sb.WriteString("{{ " + chain + " }}.")
 			chain = strings.Replace(chain, "loop.", "loop.parent.", 1)
 		}
-		sb.WriteString("{{ " + chain + " }}/{{ loop.length }}{{ loop.parent.length }}")
+		cell := "{{ " + chain + " }}/{{ loop.length }}{{ loop.parent.length }}"
+		if c.Fam == "nestinc" {
+			sb.WriteString("{% include 'cell' %}") // the innermost body is rendered through an include: it sees the call site's loop variables
+		} else {
+			sb.WriteString(cell)
+		}
 		for d := depth - 1; d >= 0; d-- {
 			if d >= 1 {
 				// the else branch of an empty inner loop still sees the enclosing loop's metadata
@@ -465,6 +474,20 @@ func c06Run(c core.Case) core.Result {
 				s += "<" + rec(d+1, append(idx, i)) + ">"
 			}
 			return s
+		}
+		if c.Fam == "nestinc" {
+			env := stick.New(&stick.MemoryLoader{Templates: map[string]string{"main": sb.String(), "cell": cell}})
+			out, err, pan := tryExec(env, "main", nil)
+			if pan != "" {
+				return core.Violation("panic", fmt.Sprintf("%q (cell %q) panicked: %s", sb.String(), cell, pan))
+			}
+			if err != nil {
+				return core.Violation("error", fmt.Sprintf("%q (cell %q) does not render: %v", sb.String(), cell, err))
+			}
+			if want := rec(0, nil); out != want {
+				return core.Violation("output", fmt.Sprintf("%q with cell = %q renders\n    %q, want\n    %q", sb.String(), cell, out, want))
+			}
+			return core.Okay(true, out)
 		}
 		return c06Compare(sb.String(), nil, rec(0, nil), true)
 	case "nestshared":
@@ -523,6 +546,13 @@ func c06Run(c core.Case) core.Result {
 		src := "a{% for v in x %}b{% endfor %}c"
 		if c.N[1] == 1 {
 			src = "a{% for v in x %}b{% else %}e{% endfor %}c"
+		}
+		if len(c.N) > 2 { // the failing loop at some nesting: inside a list loop, a map loop, a branch, an else branch, two loops
+			wraps := [][2]string{{"", ""}, {"{% for r in [1, 2] %}[", "]{% endfor %}"}, {"{% for k, r in {'p': 1} %}[", "]{% endfor %}"},
+				{"{% if true %}[", "]{% endif %}"}, {"{% for r in [] %}n{% else %}[", "]{% endfor %}"}, {"{% for r in [1] %}{% for q in [1, 2] %}[", "]{% endfor %}{% endfor %}"},
+				{"{% for r in [1, 2] %}{% if r %}[", "]{% endif %}{% endfor %}"}, {"{% for r in [1, 2] if r %}[", "]{% endfor %}"}}
+			w := wraps[c.N[2]]
+			src = "h" + w[0] + src + w[1] + "t"
 		}
 		_, err, pan := c06Exec(src, map[string]stick.Value{"x": vals[c.N[0]]})
 		if pan != "" {
